@@ -5,6 +5,7 @@ import math
 from fractions import Fraction
 
 from core import fseq, fseqs, fbool, fcells, pseq, pseqs, pcells, guarded
+import past
 import used
 
 PROP = "C09"
@@ -15,7 +16,8 @@ RULE = ("exhaustive: every rank 0..sum_{n<=N} n! (unrank, rank(unrank)), every p
         "mesh ranks for length <= 3, memo histories with repeats and an eviction line; malformed: negative lengths/ranks/"
         "counts, non-permutation and non-integer input of the validated constructor, bad characters. "
         "non-trivial = the argument has length >= 2 (generators: n >= 2, ranks: k >= 2, standardisation: a repeated "
-        "value or an inversion is present); distinct = distinct op lines")
+        "value or an inversion is present); distinct = distinct op lines"
+        ' Hardening pass 2: stream `large` (every non-enumerating operation at lengths 9-12, 21-40, 64-70, ~200, ~401, ~1000; mesh ranks for patterns of length 4-33); Perm / MeshPatt operands of heavy lines are objects with a past (past.mkperm_u/mkmesh_u, e.g. shade() of a ranked pattern, unrank of a rank, of_length items); arguments of to_standard / one_based are changed after the call.')
 ASSUMPTIONS = [
     "model/implementation agreement outside the enumerated and sampled inputs is assumed",
     "itertools.permutations(range(n)) is modelled by Model.permsLex, sorted(key=...) by a stable insertion sort, "
@@ -115,13 +117,20 @@ def _P(tok):  # noqa: E302
     """the permutation object of a line: built once per line and used before the call under test (hashed,
     compared, searched with, ranked, printed)"""
     def warm(p):
-        used.warm_perm(p, 1)
+        used.warm_perm(p, 1 if len(p) <= 100 else 0)     # (a search in a one-longer permutation costs seconds at 1000)
         if used.is_perm(p):
             used.quiet(p.rank)
             used.quiet(str, p)
             used.quiet(repr, p)
             used.quiet(lambda: p < Perm.identity(len(p)))
-    return used.obj(("P", tok), lambda: Perm(pseq(tok)), warm if _HEAVY[0] else None)
+    return used.obj(("P", tok), lambda: _mkP(pseq(tok)), warm if _HEAVY[0] else None)
+
+
+def _mkP(seq, salt=0):
+    """heavy lines: the object is one with a past (fresh / used / derived from a used object by another API route)"""
+    if _HEAVY[0] and (len(seq) > 8 or used.digest("P", [str(seq)]) % 2 == 0) and used.is_perm(seq):
+        return past.mkperm_u(seq, salt, lambda x: (x.rank() if len(x) <= 40 else None, str(x), repr(x), x < x))
+    return Perm(seq)
 
 
 def _M(ptok, ctok):
@@ -129,7 +138,13 @@ def _M(ptok, ctok):
         used.warm_mesh(m, 1)
         used.quiet(m.rank)
         used.quiet(repr, m)
-    return used.obj(("M", ptok, ctok), lambda: MeshPatt(Perm(pseq(ptok)), pcells(ctok)), warm if _HEAVY[0] else None)
+    def make():
+        if _HEAVY[0] and used.is_perm(pseq(ptok)):
+            # (mkmesh_u hands back the requested value: among its routes are shade() from a base that has been ranked,
+            # unrank of the rank of a used object, an item of of_length, add_point + sub_mesh_pattern)
+            return past.mkmesh_u(pseq(ptok), pcells(ctok), 1)
+        return MeshPatt(Perm(pseq(ptok)), pcells(ctok))
+    return used.obj(("M", ptok, ctok), make, warm if _HEAVY[0] else None)
 
 
 def _neighbours(op, a):
@@ -202,6 +217,8 @@ def impl(op, a):
     r1 = _impl(op, a)
     if op in _ONCE or (op in ("oflen", "upto") and a[0].lstrip("-").isdigit() and int(a[0]) >= 7):
         return r1
+    if used.sel(op, a, 16):
+        used.ghosts([o for _, o in used.T.objs][:2], 6)     # short-lived siblings created, used and dropped in between
     used.T.rewind()
     r2 = _impl(op, a)       # once more, on the same (now used) objects
     return r1 if r1 == r2 else used.unstable(r1, r2)
@@ -229,7 +246,19 @@ def _impl(op, a):
     if op == "ident":
         return guarded(lambda: fseq(Perm.identity(int(a[0]))))
     if op == "std":
-        return guarded(lambda: fseq(Perm.to_standard(encode(a[0], pseq(a[1])))))
+        def std():
+            v = encode(a[0], pseq(a[1]))
+            r = Perm.to_standard(v)
+            out = fseq(r)
+            if _HEAVY[0] and isinstance(v, list) and v:
+                # the list that was passed in is changed afterwards; a fresh call with the old content must not notice
+                v.append(v[0])
+                v.reverse()
+                r2 = fseq(Perm.to_standard(encode(a[0], pseq(a[1]))))
+                if r2 != out or fseq(r) != out:
+                    return used.unstable(out, r2)
+            return out
+        return guarded(std)
     if op == "stdhist":
         def f():
             outs = []
@@ -245,7 +274,14 @@ def _impl(op, a):
     if op == "fromstr":
         return guarded(lambda: fseq(Perm.from_string(pstr(a[0]))))
     if op == "onebased":
-        return guarded(lambda: fints(Perm.one_based(pints(a[0]))))
+        def ob():
+            v = pints(a[0])
+            r = Perm.one_based(v)
+            out = fints(r)
+            v.clear()                     # argument and result are destroyed: the next call starts from scratch
+            used.scrub(r)
+            return out
+        return guarded(ob)
     if op == "validated":
         return guarded(lambda: fseq(Perm.from_iterable_validated(pvals(a[0]))))
     if op == "validok":
@@ -588,6 +624,60 @@ def run(ctx):
         lines.append("rankunrank %d" % (o + k))
     lines += ["rank " + fseq(range(n)) for n in range(16, 41)] + ["rank " + fseq(range(n - 1, -1, -1)) for n in range(16, 41)]
     ctx.compare("long-ranks", lines)
+
+    # ---- sizes the other streams never reach: every operation that does not enumerate a whole level, at the scales
+    # 9-12, 21-40, 64-70 and a handful of lines around 200, 401 and 1000 (measured: implementation, oracle and model
+    # need < 0.1 s per line everywhere; the oracle formulas are the same as for short inputs)
+    lines = []
+    scales = [(9, 12, 28), (21, 40, 20), (64, 70, 8), (199, 202, 2), (400, 403, 2), (999, 1001, 1)]
+    for lo, hi, cnt in scales:
+        for _ in range(cnt if quick else cnt * 6):
+            n = rng.randrange(lo, hi + 1)
+            p = structured_perm(rng, n)
+            fp = fseq(p)
+            for op in ("str", "repr", "strrt", "onert", "validated", "rank", "unrankrank"):
+                lines.append("%s %s" % (op, fp))
+            # partners that differ from p only near the end / only in where the largest values sit
+            q = list(p)
+            i = rng.choice([n - 2, n - 3, 0, rng.randrange(n - 1)])
+            q[i], q[i + 1] = q[i + 1], q[i]
+            lines.append("lt %s %s" % (fp, fseq(q)))
+            lines.append("lt %s %s" % (fseq(q), fp))
+            lines.append("lt %s %s" % (fp, fseq(structured_perm(rng, rng.choice([n - 1, n, n + 1])))))
+            lines.append("ident %d" % n)
+            f = math.factorial(n)
+            o = sum(math.factorial(j) for j in range(n))
+            for k in (0, f - 1, f, rng.randrange(f)):
+                lines.append("unrank %d %d" % (k, n))
+            for k in (o - 1, o, o + f - 1, o + rng.randrange(f)):
+                lines.append("unrank %d N" % k)
+                lines.append("rankunrank %d" % k)
+            hi_v = rng.choice([2, 3, n // 2, n, 3 * n])
+            vals = [rng.randrange(hi_v) for _ in range(n)]
+            if rng.random() < 0.5:          # a tie between the first and the last entry, a strict maximum in between
+                vals[0] = vals[-1] = rng.randrange(hi_v)
+                vals[n // 2] = hi_v
+            for kind in rng.sample(KINDS, 3):
+                if kind == "onestr" and max(vals) > 25:
+                    kind = "int"
+                lines.append("std %s %s" % (kind, fseq(vals)))
+            lines.append("onebased " + fints(v + 1 for v in p))
+    for n in (4, 5, 6, 7, 8, 10, 11, 12, 21, 33):
+        bits = (n + 1) ** 2
+        for _ in range(3 if quick else 30):
+            p = structured_perm(rng, n)
+            ks = [0, 1, 2 ** bits - 1, 2 ** bits, 1 << (bits - 1), 1 << rng.randrange(bits), rng.randrange(2 ** bits),
+                  sum(1 << (x * (n + 1) + y) for x in (0, n) for y in range(n + 1)),       # first and last column
+                  sum(1 << (x * (n + 1) + y) for x in range(n + 1) for y in (0, n))]       # first and last row
+            for k in ks:
+                lines.append("munrank %s %d" % (fseq(p), k))
+                lines.append("mrankunrank %s %d" % (fseq(p), k))
+            for dens in (0.05, 0.5):
+                cells = [(x, y) for x in range(n + 1) for y in range(n + 1) if rng.random() < dens] + [(n, n), (0, n)]
+                rng.shuffle(cells)
+                lines.append("mrank %s %s" % (fseq(p), fcells(cells, sort=False)))
+                lines.append("munrankrank %s %s" % (fseq(p), fcells(cells, sort=False)))
+    ctx.compare("large", [l for l in lines if not l.startswith("reprrt ")])
 
     # ---- standardisation
     lines = []
